@@ -104,6 +104,11 @@ fn main() {
         std::process::exit(if ok { 0 } else { 1 });
     }
     let mut run = Run::new(&id, &tier);
+    // one execution of any exploration takes microseconds to milliseconds; one that does not return within
+    // two minutes is reported as a hang of the subject (C03 watches its child process itself)
+    if id != "C03" {
+        mcx::watch::start(&id, &tier, std::time::Duration::from_secs(120));
+    }
     let outcome = mcx::guarded(|| match id.as_str() {
         "C04" => c04::run(&mut run),
         "C03" => c03::run(&mut run),
